@@ -929,6 +929,7 @@ pub struct SStats {
     pub skipped_not_representable: AtomicU64,
     pub deser_roundtrips: AtomicU64,
     pub dyn_cross_checks: AtomicU64,
+    pub padded_decodes: AtomicU64,
 }
 
 fn fail<T>(check: &'static str, what: String) -> Result<T, Failure> {
@@ -1006,11 +1007,40 @@ pub fn c01_ser<C: Carrier + SerializeValue>(t: &Type, v: &Value, st: &SStats) ->
     Ok(true)
 }
 
+fn decode_as<C>(ct: &ColumnType<'static>, framed: &[u8], t: &Type) -> Result<Result<Result<Value, String>, String>, Failure>
+where
+    C: Carrier + for<'f, 'm> DeserializeValue<'f, 'm>,
+{
+    let body = unframe(framed).map_err(|e| Failure { check: "static-encode", what: format!("{} into {t}: malformed cell: {e}", C::name()) })?;
+    let owned = body.map(Bytes::copy_from_slice);
+    let got = catch(AssertUnwindSafe(|| -> Result<C, String> {
+        <C as DeserializeValue>::type_check(ct).map_err(|e| format!("TYPECHECK {e}"))?;
+        <C as DeserializeValue>::deserialize(ct, owned.as_ref().map(FrameSlice::new)).map_err(|e| format!("DESERIALIZE {e}"))
+    }));
+    Ok(got.map(|r| r.map(|c2| c2.key(t))))
+}
+
 pub fn c01_full<C>(t: &Type, v: &Value, st: &SStats) -> Result<bool, Failure>
 where
     C: Carrier + SerializeValue + for<'f, 'm> DeserializeValue<'f, 'm>,
 {
     let Some(c) = C::from_ref(t, v) else {
+        // The carrier cannot hold the value as given. If it can hold the value's canonical (decoded) form -
+        // a short tuple padded with nulls - then the reference encoding of the value must decode to that.
+        if C::rel_de(t) == Rel::Accept && *v != Value::Unset {
+            if let Ok(cv) = refv::canon(t, v) {
+                if &cv != v {
+                    if let Some(c) = C::from_ref(t, &cv) {
+                        let ct = column_type(t);
+                        let framed = refv::encode(t, v).map_err(|e| Failure { check: "machinery", what: e })?.framed();
+                        let got = decode_as::<C>(&ct, &framed, t)?;
+                        compare_back(&C::name(), t, &framed, &c.key(t), got).map_err(|f| Failure { check: if f.check == "static-roundtrip" { "static-decode-padded" } else { f.check }, what: f.what })?;
+                        st.padded_decodes.fetch_add(1, Ordering::Relaxed);
+                        return Ok(true);
+                    }
+                }
+            }
+        }
         st.skipped_not_representable.fetch_add(1, Ordering::Relaxed);
         return Ok(false);
     };
@@ -1020,15 +1050,8 @@ where
     if C::rel_de(t) != Rel::Accept {
         return Ok(true); // serialization-only pairing (e.g. Rust tuple shorter than the CQL tuple)
     }
-    let name = C::name();
-    let body = unframe(&bytes).map_err(|e| Failure { check: "static-encode", what: format!("{name} into {t}: malformed cell: {e}") })?;
-    let owned = body.map(Bytes::copy_from_slice);
-    let got = catch(AssertUnwindSafe(|| -> Result<C, String> {
-        <C as DeserializeValue>::type_check(&ct).map_err(|e| format!("TYPECHECK {e}"))?;
-        <C as DeserializeValue>::deserialize(&ct, owned.as_ref().map(FrameSlice::new)).map_err(|e| format!("DESERIALIZE {e}"))
-    }));
-    let want = c.key(t);
-    compare_back(&name, t, &bytes, &want, got.map(|r| r.map(|c2| c2.key(t))))?;
+    let got = decode_as::<C>(&ct, &bytes, t)?;
+    compare_back(&C::name(), t, &bytes, &c.key(t), got)?;
     st.deser_roundtrips.fetch_add(1, Ordering::Relaxed);
     Ok(true)
 }
@@ -1041,6 +1064,8 @@ pub struct Probe {
     pub state_intact: bool,
     pub grew_by_one: bool,
     pub panic: Option<String>,
+    /// the value list could not even be read back after the call (iterating it panicked)
+    pub corrupt: Option<String>,
 }
 
 fn dump(sv: &SerializedValues) -> (Vec<u8>, u16, usize) {
@@ -1058,9 +1083,19 @@ pub fn probe_value(w: &dyn DynSer, ct: &ColumnType<'static>) -> Probe {
     sv.add_value(&0x0a0b0c0di32, &ColumnType::Native(scylla_cql_core::frame::response::result::NativeType::Int)).expect("prefix value");
     let before = dump(&sv);
     let r = catch(AssertUnwindSafe(|| w.add_to(&mut sv, ct)));
-    let after = dump(&sv);
+    let after = match catch(AssertUnwindSafe(|| dump(&sv))) {
+        Ok(a) => a,
+        Err(p) => {
+            let what = match &r {
+                Ok(Ok(())) => "accepted".to_string(),
+                Ok(Err(e)) => format!("refused ({e})"),
+                Err(pp) => format!("panicked ({pp})"),
+            };
+            return Probe { accepted: false, root: "", err: String::new(), state_intact: false, grew_by_one: false, panic: None, corrupt: Some(format!("the value was {what}; reading the list back panicked: {p}")) };
+        }
+    };
     match r {
-        Err(p) => Probe { accepted: false, root: "panic", err: String::new(), state_intact: false, grew_by_one: false, panic: Some(format!("{p} at {}", vcore::last_panic_location())) },
+        Err(p) => Probe { accepted: false, root: "panic", err: String::new(), state_intact: false, grew_by_one: false, panic: Some(format!("{p} at {}", vcore::last_panic_location())), corrupt: None },
         Ok(Ok(())) => Probe {
             accepted: true,
             root: "",
@@ -1068,8 +1103,9 @@ pub fn probe_value(w: &dyn DynSer, ct: &ColumnType<'static>) -> Probe {
             state_intact: false,
             grew_by_one: after.1 == before.1 + 1 && after.2 == before.2 + 1 && after.0.len() > before.0.len() && after.0[2..before.0.len()] == before.0[2..],
             panic: None,
+            corrupt: None,
         },
-        Ok(Err(e)) => Probe { accepted: false, root: ser_error_root(&e), err: e.to_string(), state_intact: after == before, grew_by_one: false, panic: None },
+        Ok(Err(e)) => Probe { accepted: false, root: ser_error_root(&e), err: e.to_string(), state_intact: after == before, grew_by_one: false, panic: None, corrupt: None },
     }
 }
 
@@ -1113,7 +1149,7 @@ macro_rules! fam_all {
 /// deeper wrappers for a few representatives (two levels)
 macro_rules! fam_deep {
     ($v:ident; $($T:ty),* $(,)?) => { $(
-        reg_full!($v; Vec<Vec<$T>>, HashMap<i32, Vec<$T>>, BTreeMap<String, Option<$T>>, Option<Box<$T>>, Arc<Vec<$T>>, Vec<($T, i32)>, (Vec<$T>, $T), Option<($T,)>, Box<Arc<$T>>);
+        reg_full!($v; (Option<$T>, Option<i32>), (Option<$T>, Option<String>, Option<$T>), Vec<(Option<$T>, Option<i32>)>, Vec<Vec<$T>>, HashMap<i32, Vec<$T>>, BTreeMap<String, Option<$T>>, Option<Box<$T>>, Arc<Vec<$T>>, Vec<($T, i32)>, (Vec<$T>, $T), Option<($T,)>, Box<Arc<$T>>);
         reg_ser!($v; MaybeUnset<Option<$T>>, RefOf<Vec<$T>>, SliceOf<Option<$T>>);
     )* };
 }
